@@ -356,10 +356,16 @@ Section Journal.
   (* the writer: writeCompressedChunk / commitRootHashUnlocked / flush / Sync *)
 
   Variable threshold : N.             (* journalMaybeSyncThreshold *)
+  Variable max_novel : N.             (* wr.maxNovel *)
 
   Inductive op :=
   | OChunk (addr payload : bytes) (ts : N)   (* ts: timestamp used if the write triggers the threshold commit *)
   | OCommit (ts : N) (root : bytes).
+
+  (* what the writer hands to the journal index writer, in order (writeIndexLookup / writeJournalIndexMeta) *)
+  Inductive irec :=
+  | ILookup (a16 : bytes) (off len : N)
+  | IMeta (start end_ : N) (root : bytes).
 
   Record wstate := {
     w_file : bytes;        (* bytes handed to the OS (WriteAt) *)
@@ -368,15 +374,20 @@ Section Journal.
     w_unsyncd : N;         (* wr.unsyncd *)
     w_root : bytes;        (* wr.currentRoot *)
     w_acked : list bytes;  (* roots whose commit has returned to the caller, newest first *)
-    w_recs : list wrec     (* ghost: records appended so far, oldest first *)
+    w_recs : list wrec;    (* ghost: records appended so far, oldest first *)
+    w_idx : list irec;     (* records written to wr.indexWriter so far, oldest first *)
+    w_indexed : N;         (* wr.indexed *)
+    w_novel : list bytes   (* keys of wr.ranges.novel (with repetitions) *)
   }.
 
   Definition w_init : wstate :=
-    {| w_file := []; w_buf := []; w_synced := 0; w_unsyncd := 0; w_root := zero_hash; w_acked := []; w_recs := [] |}.
+    {| w_file := []; w_buf := []; w_synced := 0; w_unsyncd := 0; w_root := zero_hash; w_acked := []; w_recs := [];
+       w_idx := []; w_indexed := 0; w_novel := [] |}.
 
   Definition w_flush (s : wstate) : wstate :=
     {| w_file := w_file s ++ w_buf s; w_buf := []; w_synced := w_synced s; w_unsyncd := w_unsyncd s;
-       w_root := w_root s; w_acked := w_acked s; w_recs := w_recs s |}.
+       w_root := w_root s; w_acked := w_acked s; w_recs := w_recs s;
+       w_idx := w_idx s; w_indexed := w_indexed s; w_novel := w_novel s |}.
 
   (* getBytes: None = "requested bytes exceeds capacity" *)
   Definition w_get_bytes (n : N) (s : wstate) : option wstate :=
@@ -386,29 +397,56 @@ Section Journal.
 
   Definition w_append (r : wrec) (s : wstate) : wstate :=
     {| w_file := w_file s; w_buf := w_buf s ++ enc r; w_synced := w_synced s; w_unsyncd := w_unsyncd s;
-       w_root := w_root s; w_acked := w_acked s; w_recs := w_recs s ++ [r] |}.
+       w_root := w_root s; w_acked := w_acked s; w_recs := w_recs s ++ [r];
+       w_idx := w_idx s; w_indexed := w_indexed s; w_novel := w_novel s |}.
+
+  (* wr.ranges.put + writeIndexLookup for the chunk record that starts at |start| *)
+  Definition w_lookup (a : bytes) (start plen : N) (s : wstate) : wstate :=
+    {| w_file := w_file s; w_buf := w_buf s; w_synced := w_synced s; w_unsyncd := w_unsyncd s;
+       w_root := w_root s; w_acked := w_acked s; w_recs := w_recs s;
+       w_idx := w_idx s ++ [ILookup (addr16 a) (start + chunk_payload_off) plen]; w_indexed := w_indexed s; w_novel := a :: w_novel s |}.
+
+  (* flushIndexRecord(root, end) *)
+  Definition w_meta (root : bytes) (e : N) (s : wstate) : wstate :=
+    {| w_file := w_file s; w_buf := w_buf s; w_synced := w_synced s; w_unsyncd := w_unsyncd s;
+       w_root := w_root s; w_acked := w_acked s; w_recs := w_recs s;
+       w_idx := w_idx s ++ [IMeta (w_indexed s) e root]; w_indexed := e; w_novel := [] |}.
 
   Definition w_sync (s : wstate) : wstate :=
     {| w_file := w_file s; w_buf := w_buf s; w_synced := lenN (w_file s); w_unsyncd := 0;
-       w_root := w_root s; w_acked := w_acked s; w_recs := w_recs s |}.
+       w_root := w_root s; w_acked := w_acked s; w_recs := w_recs s;
+       w_idx := w_idx s; w_indexed := w_indexed s; w_novel := w_novel s |}.
 
   Definition w_set_root (root : bytes) (s : wstate) : wstate :=
     {| w_file := w_file s; w_buf := w_buf s; w_synced := w_synced s; w_unsyncd := w_unsyncd s;
-       w_root := root; w_acked := w_acked s; w_recs := w_recs s |}.
+       w_root := root; w_acked := w_acked s; w_recs := w_recs s;
+       w_idx := w_idx s; w_indexed := w_indexed s; w_novel := w_novel s |}.
 
   Definition w_ack (root : bytes) (s : wstate) : wstate :=
     {| w_file := w_file s; w_buf := w_buf s; w_synced := w_synced s; w_unsyncd := w_unsyncd s;
-       w_root := w_root s; w_acked := root :: w_acked s; w_recs := w_recs s |}.
+       w_root := w_root s; w_acked := root :: w_acked s; w_recs := w_recs s;
+       w_idx := w_idx s; w_indexed := w_indexed s; w_novel := w_novel s |}.
 
   Definition w_add_unsyncd (n : N) (s : wstate) : wstate :=
     {| w_file := w_file s; w_buf := w_buf s; w_synced := w_synced s; w_unsyncd := w_unsyncd s + n;
-       w_root := w_root s; w_acked := w_acked s; w_recs := w_recs s |}.
+       w_root := w_root s; w_acked := w_acked s; w_recs := w_recs s;
+       w_idx := w_idx s; w_indexed := w_indexed s; w_novel := w_novel s |}.
 
   Definition is_empty_hash (h : bytes) : bool := forallb (fun b => b =? 0) h.
 
+  Fixpoint distinct (l seen : list bytes) : list bytes :=
+    match l with
+    | [] => seen
+    | k :: l' => if existsb (beq_bytes k) seen then distinct l' seen else distinct l' (k :: seen)
+    end.
+  Definition novel_count (s : wstate) : N := N.of_nat (length (distinct (w_novel s) [])).
+
+  Definition w_offset (s : wstate) : N := lenN (w_file s) + lenN (w_buf s).    (* wr.offset() *)
+
   (* Every intermediate state of an operation is listed (a crash can happen at any of them);
      the last element is the state when the call returns.  commitRootHashUnlocked:
-     getBytes, set currentRoot, write record, flush, Sync, [return = ack]. *)
+     getBytes, set currentRoot, write record, flush, Sync, [flushIndexRecord when novelCount > maxNovel,
+     with end = the offset of the root record just written], [return = ack]. *)
   Definition commit_states (ts : N) (root : bytes) (s : wstate) : list wstate * bool :=
     match w_get_bytes root_rec_len s with
     | None => ([s], false)
@@ -416,12 +454,13 @@ Section Journal.
       let s2 := w_append (WRoot ts root) (w_set_root root s1) in
       let s3 := w_flush s2 in
       let s4 := w_sync s3 in
-      ([s1; s2; s3; s4], true)
+      ([s1; s2; s3; s4] ++ (if max_novel <? novel_count s4 then [w_meta root (w_offset s1) s4] else []), true)
     end.
 
   Definition last_state (l : list wstate) (d : wstate) : wstate := last l d.
 
-  (* one op: (intermediate states ending with the returned state, ok?) *)
+  (* one op: (intermediate states ending with the returned state, ok?).  writeCompressedChunk:
+     getBytes, unsyncd += n, write record, ranges.put, writeIndexLookup, then the threshold commit. *)
   Definition op_states (o : op) (s : wstate) : list wstate * bool :=
     match o with
     | OCommit ts root =>
@@ -434,7 +473,7 @@ Section Journal.
       match w_get_bytes n s with
       | None => ([s], false)
       | Some s1 =>
-        let s2 := w_append (WChunk a p) (w_add_unsyncd n s1) in
+        let s2 := w_lookup a (w_offset s1) (lenN p) (w_append (WChunk a p) (w_add_unsyncd n s1)) in
         if (threshold <? w_unsyncd s2) && negb (is_empty_hash (w_root s2)) then
           match commit_states ts (w_root s2) s2 with
           | (l, ok) => (s1 :: s2 :: l, ok)
@@ -470,4 +509,14 @@ Section Journal.
 
   (* journalWriter.Close: flush (then Sync) *)
   Definition closed_file (s : wstate) : bytes := w_file s ++ w_buf s.
+
+  (* the index file after Close (indexWriter.Flush): the records in order; the meta checksum is the
+     crc over the address prefixes of the lookups of its batch (F1: nothing else) *)
+  Fixpoint enc_idx (recs : list irec) (batch : bytes) : bytes :=
+    match recs with
+    | [] => []
+    | ILookup a o l :: recs' => 0 :: a ++ be64 o ++ be32 l ++ enc_idx recs' (batch ++ a)
+    | IMeta st e r :: recs' => 1 :: be64 st ++ be64 e ++ be32 (crc batch) ++ r ++ enc_idx recs' []
+    end.
+  Definition closed_index (s : wstate) : bytes := enc_idx (w_idx s) [].
 End Journal.
